@@ -46,9 +46,11 @@ def build_confs(fam, spec):
                 d["index"] = e['index']
             if e['port']:
                 d["peer_port"] = e['port']
-            if e['sub'] == 'net':
-                d["my_subnet"] = T['net_a']
-                d["peer_subnet"] = T['net_b'] if pk == 'b' else T['net_c']
+            if e['sub'] in ('net', 'net-other'):
+                # 'net-other': the protected networks are of the other address family than the gateways (tunnel mode)
+                N = T if e['sub'] == 'net' else (V6 if fam == 4 else V4)
+                d["my_subnet"] = N['net_a']
+                d["peer_subnet"] = N['net_b'] if pk == 'b' else N['net_c']
                 my_net, peer_net = d["my_subnet"], d["peer_subnet"]
             else:
                 my_net, peer_net = my, peer
@@ -68,7 +70,7 @@ def build_confs(fam, spec):
             m.pop('peer_port', None)
             if e['port']:
                 m['my_port'] = e['port']
-            if e['sub'] == 'net':
+            if e['sub'] in ('net', 'net-other'):
                 m['my_subnet'], m['peer_subnet'] = d['peer_subnet'], d['my_subnet']
             mirror.append(m)
         others.setdefault(pk, {})['to_%s_%d' % (lk, ci)] = S.conn(peer, my, "peer%s@openikev2" % pk, "alice@openikev2",
@@ -162,6 +164,18 @@ def config_space():
         e4 = entry_spec(fam, None, 'host', 23, 'udp', 'transport', 'esp', 400)
         out.append((fam, [('a', 'b', [e1, e2])]))
         out.append((fam, [('a', 'b', [e1, e4])]))
+        # explicit small indexes next to entries that leave the index to the daemon, in every order
+        s1 = entry_spec(fam, 1, 'host', 0, 'tcp', 'transport', 'esp', 100)
+        s2 = entry_spec(fam, 2, 'net', 23, 'tcp', 'tunnel', 'esp', 200)
+        n1 = entry_spec(fam, None, 'net', 53, 'udp', 'tunnel', 'ah', 77)
+        n2 = entry_spec(fam, None, 'host', 23, 'udp', 'transport', 'esp', 400)
+        out.append((fam, [('a', 'b', [s1, n1])]))
+        out.append((fam, [('a', 'b', [n1, s1])]))
+        out.append((fam, [('a', 'b', [n1, n2, s1, s2])]))
+        out.append((fam, [('a', 'b', [s2, n1]), ('a', 'c', [n2, s1])]))
+        # networks of the other address family behind the gateways
+        out.append((fam, [('a', 'b', [entry_spec(fam, 7, 'net-other', 0, 'tcp', 'tunnel', 'esp', 100)])]))
+        out.append((fam, [('a', 'b', [entry_spec(fam, None, 'net-other', 23, 'any', 'tunnel', 'ah', 100), e1])]))
         out.append((fam, [('a', 'b', [e1]), ('a', 'c', [e3])]))
         out.append((fam, [('a', 'b', [e1, e2]), ('a', 'c', [e3, e4])]))
         out.append((fam, [('a', 'b', [e1]), ('a2', 'b', [e2])]))        # two local addresses, one peer address
